@@ -97,4 +97,10 @@ META = {
         "note": "Trusted: Lean kernel; extractor; the field classification for non-reset fields (validated by pool seeding); sync.Pool behaviour.",
         "technique": "Lean 4 (pure-function model + decide over regenerated struct facts); differential replay of probes after varied histories",
     },
+    "C02": {
+        "text": "Proof: the call model composes the regenerated gate, the argsToAttrs state machine, the encoder and the regenerated routing; theorems give exactly-once delivery to the selected destinations with one whole LF-terminated payload for every argument list in the domain, silence when not admitted, the one-byte blank Print, and normal return for non-terminating severities. Tied to the code by the translator (gate, routing, termination, blank shortcut, one Write per printOut) and by a byte-exact correspondence over sequences of verb calls with free-form arguments on three loggers sharing the pools.",
+        "design_ref": "DESIGN.md §7 C02",
+        "note": "Trusted: Lean kernel; extractor; the harness's classification of Go argument kinds into the model's Arg cases; values with panicking methods / cycles / attributes in value position are outside the model.",
+        "technique": "Lean 4 (state-machine induction, encoder lemmas, regenerated decisions) + differential replay of call sequences",
+    },
 }
